@@ -5,12 +5,21 @@ import sys
 from vlib import core
 
 
+def seed_value(text):
+    """VERIF_SEED may be any string; non-integers are folded to a stable integer."""
+    try:
+        return int(text)
+    except ValueError:
+        import hashlib
+        return int(hashlib.sha256(str(text).encode()).hexdigest()[:8], 16)
+
+
 def main():
     ap = argparse.ArgumentParser()
     ap.add_argument("prop")
     ap.add_argument("--tier", default=os.environ.get("VERIF_TIER", "quick"),
                     choices=["quick", "thorough"])
-    ap.add_argument("--seed", type=int, default=int(os.environ.get("VERIF_SEED", "0") or 0))
+    ap.add_argument("--seed", type=seed_value, default=seed_value(os.environ.get("VERIF_SEED", "0") or "0"))
     ap.add_argument("--replay", default=None)
     a = ap.parse_args()
     sys.exit(core.run_check(a.prop.upper(), a.tier, a.seed, a.replay))
